@@ -276,6 +276,15 @@ def result_pipeline(cx: Cx, fn, paths: List[Path], p: Path, ret: Term, table=Non
         pool_t = strip_versions(src.args[0])
         made_here = isinstance(pool_t, App) and pool_t.fn in ('call', 'new') and pool_t.args and isinstance(pool_t.args[0], Sym) and \
             pool_t.args[0].name.rsplit('.', 1)[-1] == 'Pool'
+        # ... and they are PROCESSES: a thread pool (multiprocessing.dummy.Pool, multiprocessing.pool.ThreadPool) runs the models side by
+        # side in one interpreter, where everything kept outside the instances (class components, default tags, the global tag
+        # library) is shared between the runs
+        ctor_ = pool_t.args[0] if isinstance(pool_t, App) and pool_t.fn in ('call', 'new') and pool_t.args else \
+            (strip_versions(pool_t.args[0]).args[0] if isinstance(pool_t, App) and pool_t.fn == '.__enter__' and pool_t.args and
+             isinstance(strip_versions(pool_t.args[0]), App) and strip_versions(pool_t.args[0]).args else None)
+        if isinstance(ctor_, Sym) and ('dummy' in ctor_.name or 'Thread' in ctor_.name):
+            return (f"the pool arm runs the work list on {ctor_.name}, a pool of THREADS: the runs share one interpreter, so models that "
+                    f"keep state outside their instances overwrite each other's state and the results depend on thread timing")
         if not made_here and not (isinstance(pool_t, App) and pool_t.fn in ('.__enter__',) and pool_t.args and
                                   isinstance(strip_versions(pool_t.args[0]), App) and 'Pool' in repr(strip_versions(pool_t.args[0]))[:60]):
             return (f"the pool arm maps over {pool_t!r}, which is not a Pool created in this call: worker processes kept between calls "
